@@ -440,9 +440,40 @@ def bounded_scaling(tier, seed):
     return {"evaluations": n, "bound": "one correlated pair, N=6000, scale factors 1e-12..1e6 (1e-15..1e9 thorough), rate factors 0.01, 3, 1e4", "failures": fails[:5], "n_failures": len(fails)}
 
 
-BOUNDED = {"C06.scaling": bounded_scaling}
+def bounded_sinusoid(tier, seed):
+    """C06 (bounded): a sinusoid of amplitude A analysed at its own frequency gives a power spectrum (density x ENBW)
+    of A^2/2 up to the leakage of the image frequency through the side lobes (relative 4*10^(-psll/20)) - amplitudes,
+    phases, segment lengths, fractional bin positions, Kaiser psll 60..200 - and the reported
+    ENBW is fs*sum(w^2)/(sum w)^2 of the window actually used"""
+    import numpy as np
+    from speckit import SpectrumAnalyzer
+    from speckit.utils import kaiser_alpha
+
+    rng = np.random.default_rng(seed)
+    fails, n = [], 0
+    fs, N = 100.0, 12000
+    t = np.arange(N) / fs
+    for psll in (60, 120, 200) if tier == "quick" else (60, 80, 100, 120, 150, 180, 200):
+        for L in (200, 257, 1000) if tier == "quick" else (128, 200, 257, 500, 1000, 4096):
+            for frac in (0.0, 0.37):
+                A, ph = float(rng.uniform(0.1, 50.0)), float(rng.uniform(0, 2 * np.pi))
+                f0 = (L // 5 + frac) * fs / L
+                x = A * np.sin(2 * np.pi * f0 * t + ph)
+                n += 1
+                r = SpectrumAnalyzer(x, fs, olap=0.5, order=-1, psll=psll).compute_single_bin(f0, L=L)
+                ps = float(r.ps[0])
+                w = np.kaiser(L + 1, kaiser_alpha(psll) * np.pi)[:-1]
+                enbw = fs * np.sum(w * w) / np.sum(w) ** 2
+                # the image at -f0 leaks through the side lobes: relative error up to ~2*10^(-psll/20) (cross term)
+                tol = 4 * 10 ** (-psll / 20) + 1e-9
+                if abs(ps - A * A / 2) > tol * A * A / 2 or abs(float(r.ENBW[0]) - enbw) > 1e-9 * enbw:
+                    fails.append({"label": "C06.sinusoid_power", "input": {"psll": psll, "L": L, "bin": L // 5 + frac, "A": A}, "detail": f"ps={ps!r} (A^2/2={A*A/2!r}), ENBW={float(r.ENBW[0])!r} (fs*S2/S1^2={enbw!r})"})
+    return {"evaluations": n, "bound": "psll 60..200, L 200..1000 (128..4096 thorough), integer and fractional bin positions, random amplitude and phase", "failures": fails[:5], "n_failures": len(fails)}
+
+
+BOUNDED = {"C06.scaling": bounded_scaling, "C06.sinusoid": bounded_sinusoid}
 PROPERTY_INFO = {
-    "C06": {"bounded": ["C06.scaling"], "not_decided": ["sinusoid calibration A^2/2: reduces to the leakage of the window (bounded, C12)", "fs -> a*fs leaves the schedulers' L and D unchanged: relational property of the scheduler loops, bounded only"]},
+    "C06": {"bounded": ["C06.scaling", "C06.sinusoid"], "not_decided": ["sinusoid calibration A^2/2: reduces to the leakage of the window (bounded, C12)", "fs -> a*fs leaves the schedulers' L and D unchanged: relational property of the scheduler loops, bounded only"]},
     "C07": {"trusted": ["relational lemmas are statements about the kernel specification (specs/spec_lib.py); the kernels are tied to it by the C01 obligations"]},
     "C08": {"trusted": ["QR contract of numpy.linalg.qr: range(Q) = range(V), orthonormal columns (assumed, DESIGN 3.2)"]},
 }
